@@ -828,6 +828,13 @@ class IteratorQueue(IterableQueue[_ValueT]):
         self._stop_enqueue()
         self._maybe_stop_upstream()
         raise e
+      except BaseException as e:  # pylint: disable=broad-exception-caught
+        # KeyboardInterrupt, SystemExit, GeneratorExit, asyncio.CancelledError:
+        # never ignorable, and the consumers must not wait for this enqueuer.
+        self._exception = e
+        self._stop_enqueue()
+        self._maybe_stop_upstream()
+        raise
     # Enqueueing ended before the iterator did: nobody consumes its source.
     self._maybe_stop_upstream()
 
